@@ -49,6 +49,14 @@
 (assert (forall ((n Int)) (! (=> (>= n 0) (> (pow2 n) 0)) :pattern ((pow2 n)))))
 (assert (forall ((n Int) (m Int)) (! (=> (and (<= 0 n) (<= n m)) (<= (pow2 n) (pow2 m))) :pattern ((pow2 n) (pow2 m)))))
 (assert (forall ((b BStr)) (! (< (beint b) (pow2 (* 8 (blen b)))) :pattern ((beint b)))))
+; pow2 recurrence, instantiated only where a contract names the instance (lemPow2(n) is true for every n)
+(declare-fun lemPow2 (Int) Bool)
+(assert (forall ((n Int)) (! (and (lemPow2 n) (=> (>= n 1) (= (pow2 n) (* 2 (pow2 (- n 1)))))) :pattern ((lemPow2 n)))))
+; leading byte(s) of a big-endian string bound its value from below (c is a literal where instantiated, so the product is linear)
+(declare-fun lemLead (BStr Int) Bool)
+(assert (forall ((a (Array Int Int)) (o Int) (n Int) (c Int)) (! (and (lemLead (bs a o n) c) (=> (and (>= n 1) (<= c (select a o))) (<= (* c (pow2 (* 8 (- n 1)))) (beint (bs a o n))))) :pattern ((lemLead (bs a o n) c)))))
+(declare-fun lemLead2 (BStr Int) Bool)
+(assert (forall ((a (Array Int Int)) (o Int) (n Int) (c Int)) (! (and (lemLead2 (bs a o n) c) (=> (and (>= n 2) (<= c (+ (* 256 (select a o)) (select a (+ o 1))))) (<= (* c (pow2 (* 8 (- n 2)))) (beint (bs a o n))))) :pattern ((lemLead2 (bs a o n) c)))))
 
 ; ----- number theory (uninterpreted, with the facts the proofs need) -----
 (declare-fun gcd (Int Int) Int)
@@ -66,6 +74,9 @@
 (assert (forall ((x Int)) (! (and (>= (bitlen x) 0) (= (bitlen x) (bitlen (- x)))) :pattern ((bitlen x)))))
 (assert (= (bitlen 0) 0))
 (assert (forall ((x Int)) (! (=> (> x 0) (and (> (bitlen x) 0) (<= (pow2 (- (bitlen x) 1)) x) (< x (pow2 (bitlen x))))) :pattern ((bitlen x)))))
+; the bit length is determined by the enclosing powers of two (instantiated where a contract names the instance)
+(declare-fun lemBitlen (Int Int) Bool)
+(assert (forall ((x Int) (k Int)) (! (and (lemBitlen x k) (=> (and (>= k 1) (<= (pow2 (- k 1)) x) (< x (pow2 k))) (= (bitlen x) k))) :pattern ((lemBitlen x k)))))
 (assert (forall ((x Int) (y Int) (m Int)) (! (=> (> m 0) (and (<= 0 (powmod x y m)) (< (powmod x y m) m))) :pattern ((powmod x y m)))))
 (assert (forall ((x Int) (m Int)) (! (=> (and (> m 1) (= (gcd x m) 1)) (and (< 0 (invmod x m)) (< (invmod x m) m))) :pattern ((invmod x m)))))
 (assert (forall ((x Int)) (! (=> (>= x 0) (and (>= (isqrt x) 0) (<= (* (isqrt x) (isqrt x)) x))) :pattern ((isqrt x)))))
@@ -117,6 +128,10 @@
 (assert (forall ((a Int) (b Int)) (! (=> (and (> a 0) (> b 0)) (and (>= (imul a b) a) (>= (imul a b) b))) :pattern ((imul a b)))))
 (assert (forall ((a Int) (b Int)) (! (=> (or (= a 0) (= b 0)) (= (imul a b) 0)) :pattern ((imul a b)))))
 (assert (forall ((a Int) (b Int)) (! (=> (= a 1) (= (imul a b) b)) :pattern ((imul a b)))))
+(assert (forall ((a Int) (b Int)) (! (=> (= a 2) (= (imul a b) (* 2 b))) :pattern ((imul a b)))))
+; product of two L-bit numbers with both top bits set has exactly 2L bits: (3*2^(L-2))^2 = 9*2^(2L-4) >= 2^(2L-1)
+(declare-fun lemTopProduct (Int Int Int) Bool)
+(assert (forall ((x Int) (y Int) (l Int)) (! (and (lemTopProduct x y l) (=> (and (>= l 2) (<= (* 3 (pow2 (- l 2))) x) (< x (pow2 l)) (<= (* 3 (pow2 (- l 2))) y) (< y (pow2 l))) (and (<= (pow2 (- (* 2 l) 1)) (imul x y)) (< (imul x y) (pow2 (* 2 l)))))) :pattern ((lemTopProduct x y l)))))
 (assert (forall ((a Int) (b Int)) (! (=> (not (= (imul a b) 0)) (and (not (= a 0)) (not (= b 0)))) :pattern ((imul a b)))))
 (assert (forall ((a Int) (b Int)) (! (=> (and (> a 1) (> b 1)) (and (> (imul a b) a) (> (imul a b) b))) :pattern ((imul a b)))))
 (assert (forall ((a Int) (b Int)) (! (=> (and (> a 0) (> b 0)) (and (<= (bitlen (imul a b)) (+ (bitlen a) (bitlen b))) (>= (bitlen (imul a b)) (bitlen a)) (>= (bitlen (imul a b)) (bitlen b)))) :pattern ((bitlen (imul a b))))))
